@@ -142,6 +142,7 @@ type Knobs struct {
 	AnonymousMount        bool   // grant a mount without "from" when any repository holds the blob
 	ChunkMin              int    // OCI-Chunk-Min-Length announced on upload POST (0: none)
 	ChunkMinEnforce       bool   // a chunk that follows one below the minimum is refused with 400
+	LinkSecondLine        bool   // paged tag listings carry two Link header lines, rel="next" on the second
 	LocRelocate           bool   // after the first chunk the session moves to another path prefix (announced once as an absolute path), later Locations are relative to that new directory, and the old URL answers 404
 	LocAbsolute           bool   // absolute upload Location
 	LocQuery              bool   // Location carries a query string
@@ -777,7 +778,13 @@ func (g *Reg) tagList(req *simnet.Request, repo string, q url.Values) *simnet.Re
 		if n > 0 {
 			nq.Set("n", strconv.Itoa(n))
 		}
-		r.Header.Set("Link", fmt.Sprintf("</v2/%s/tags/list?%s>; rel=\"next\"", repo, nq.Encode()))
+		if g.K.LinkSecondLine {
+			// several Link header lines, the one with rel="next" not first (a proxy or registry that also links the first page)
+			r.Header.Add("Link", fmt.Sprintf("</v2/%s/tags/list>; rel=\"first\"", repo))
+			r.Header.Add("Link", fmt.Sprintf("</v2/%s/tags/list?%s>; rel=\"next\"", repo, nq.Encode()))
+		} else {
+			r.Header.Set("Link", fmt.Sprintf("</v2/%s/tags/list?%s>; rel=\"next\"", repo, nq.Encode()))
+		}
 	}
 	if tags == nil {
 		tags = []string{}
